@@ -122,7 +122,8 @@ def _case(draw):
             'what': draw(st.sampled_from(['value', 'value', 'error-ref', 'error-other'])),
             'factor': draw(st.floats(-3.0, 3.0).map(lambda x: 10.0 ** x))}
     return {'shape': shape, 'kinds': kinds, 'ref': {'v': refv, 'e': refe}, 'others': others,
-            'alpha': alpha, 'ndf': ndf, 'k': draw(st.integers(-KMAX, KMAX)), 'mono': mono}
+            'alpha': alpha, 'ndf': ndf, 'k': draw(st.integers(-KMAX, KMAX)), 'mono': mono,
+            'layout': draw(st.sampled_from(['C', 'C', 'F'])) if len(shape) >= 2 else 'C'}
 
 
 def strategy(tier):
@@ -226,7 +227,7 @@ def _run_case(case):
     nds = len(case['others'])
 
     def build(values, errors, name):
-        return statgen.make_dataset(shape, kinds, values, errors, name)
+        return statgen.make_dataset(shape, kinds, values, errors, name, case.get('layout', 'C'))
 
     ref = build(refv, refe, 'ref')
     others = [build(o['v'], o['e'], f'o{i}') for i, o in enumerate(case['others'])]
